@@ -8,6 +8,8 @@ releases exactly one parked gate chosen by a *choice function*.  The sequence of
 the schedule; stateless replay of choice prefixes enumerates all schedules (DFS).
 """
 import asyncio
+import threading
+import time
 import gc
 
 
@@ -52,11 +54,15 @@ class Sched:
                 idle = 0
                 continue
             if not self.blocked:
+                if getattr(loop, "_scheduled", None):
+                    await asyncio.sleep(0.001)      # a timer is pending: the loop is not quiescent
+                    continue
                 idle += 1
-                if idle > 3:
+                if idle > 3 and quiescent_for_good(self):
                     raise Stuck("nothing runnable, nothing gated, request not finished")
                 continue
             idle = 0
+            self.idle_since = None
             keys = sorted(self.blocked)
             i = self.choose(keys, self.steps)
             if not 0 <= i < len(keys):
@@ -103,6 +109,24 @@ def prefix_chooser(prefix, tail="first", rng=None):
     return choose
 
 
+GRACE_S = 3.0
+
+
+def quiescent_for_good(state):
+    """Nothing ready, nothing gated, no timer.  Without another thread nothing can ever wake the loop again: stuck, now.
+    With other threads alive (an engine that parses in an executor, ...) a result may still be posted: real time is given
+    (GRACE_S of uninterrupted quiescence) before the verdict."""
+    if threading.active_count() <= 1:
+        return True
+    now = time.monotonic()
+    if getattr(state, "idle_since", None) is None:
+        state.idle_since = now
+    if now - state.idle_since > GRACE_S:
+        return True
+    time.sleep(0.002)
+    return False
+
+
 async def run_scheduled(make_coros, choose, step_bound=100000):
     """make_coros(sched) -> list of coroutines (the requests).  Returns (results, sched, stray).
     results[i] is the value or the exception of coroutine i."""
@@ -130,8 +154,38 @@ async def run_scheduled(make_coros, choose, step_bound=100000):
         else:
             results.append(t.result())
     await asyncio.sleep(0)
-    stray = [t for t in asyncio.all_tasks() if t not in before and t is not asyncio.current_task() and not t.done()]
+    alive = [t for t in asyncio.all_tasks() if t not in before and t is not asyncio.current_task() and not t.done()]
+    stray = []
+    if alive and stuck is None:
+        # Tasks outliving the request matter to the statement only when USER code (resolver, directive hook, source: every
+        # one of them passes a gate) is involved: suspended at a gate right now, or entered later while the leftovers run on.
+        suspended = sorted(sched.blocked)
+        mark = len(sched.log)
+        for _ in range(2000):
+            if all(t.done() for t in alive):
+                break
+            for k in list(sched.blocked):
+                fut = sched.blocked.pop(k)
+                if not fut.done():
+                    fut.set_result(None)
+            await asyncio.sleep(0)
+            if not loop_busy():
+                break
+        late = [e for e in sched.log[mark:] if e[0] == "start"]
+        if suspended or late:
+            stray = ["user code outlives the request: suspended at return %s, entered afterwards %s; tasks %s" % (
+                suspended[:4], [e[1] for e in late[:4]], [repr(t)[:120] for t in alive[:2]])]
+        else:
+            sched.other_tasks_alive = len(alive)     # engine housekeeping without user code: counted, not judged
+        for t in alive:
+            if not t.done():
+                t.cancel()
     return results, sched, stray, stuck
+
+
+def loop_busy():
+    loop = asyncio.get_running_loop()
+    return bool(loop._ready) or bool(getattr(loop, "_scheduled", None))
 
 
 async def collect_schedules(run_once, cap, rng, sample_tail=0):
